@@ -257,7 +257,7 @@ package segment
 //@   ensures[C01.ack-implies-synced] result == nil && len(entries) > 0 ==> !w.wf.dirty && w.wf.dirLinked
 //@   ensures[C05.append-consecutive] result == nil ==> (forall j int :: 0 <= j && j < len(entries) ==> entries[j].Index == w.info.BaseIndex + uint64(old(len(av(w.offsets)))) + uint64(j))
 //@   ensures[C05.append-commitidx] result == nil && len(entries) > 0 ==> w.commitIdx == entries[len(entries)-1].Index && len(av(w.offsets)) == old(len(av(w.offsets))) + len(entries)
-//@   ensures[C10.rollback] result != nil ==> sameslice(w.writer.commitBuf, old(w.writer.commitBuf)) && w.writer.crc == old(w.writer.crc)
+//@   ensures[C10.rollback,C02.failed-append-leaves-no-trace] result != nil ==> sameslice(w.writer.commitBuf, old(w.writer.commitBuf)) && w.writer.crc == old(w.writer.crc)
 //@      && w.writer.writeOffset == old(w.writer.writeOffset) && w.writer.indexStart == old(w.writer.indexStart)
 //@      && sameslice(av(w.offsets), old(av(w.offsets))) && w.commitIdx == old(w.commitIdx)
 //@   ensures[C10.rollback-content] result != nil ==> unchanged(w.writer.commitBuf, 0, len(w.writer.commitBuf)) && unchanged(av(w.offsets), 0, len(av(w.offsets)))
@@ -272,7 +272,7 @@ package segment
 //@   loop 1 decreases len(entries) - rangeindex
 
 //@ func (*Writer).ForceSeal
-//@   props C01 C04 C10
+//@   props C01 C04 C09 C10
 //@   refines types.SegmentWriter.ForceSeal
 //@   requires WInv(w)
 //@   assigns w.writer.commitBuf, w.writer.crc, w.writer.indexStart, w.writer.writeOffset, w.commitIdx, w.wf.dirty, w.wf.dirLinked,
@@ -280,6 +280,10 @@ package segment
 //@   ensures[C04.forceseal-idempotent] old(w.writer.indexStart) > 0 ==> result1 == nil && result0 == old(w.writer.indexStart) && w.writer.indexStart == old(w.writer.indexStart)
 //@   ensures[C04.forceseal-sealed] result1 == nil && len(av(w.offsets)) > 0 ==> w.writer.indexStart > 0 && result0 == w.writer.indexStart
 //@   ensures[C01.forceseal-synced,C04.forceseal-synced] result1 == nil && old(w.writer.indexStart) == 0 ==> !w.wf.dirty && w.wf.dirLinked
+//@   -- the representation invariant survives a seal, successful or failed: in
+//@   -- particular the rolling CRC still covers exactly the unflushed bytes, so the
+//@   -- next commit frame's CRC covers exactly the bytes since the previous commit
+//@   ensures[C09.crc-chain-after-forceseal,C10.forceseal-keeps-winv] WInv(w)
 //@   ensures[C10.forceseal-commitidx] result1 != nil ==> w.commitIdx == old(w.commitIdx)
 //@   ensures[C10.forceseal-rollback] result1 != nil ==> w.writer.indexStart == old(w.writer.indexStart) && sameslice(w.writer.commitBuf, old(w.writer.commitBuf))
 //@      && w.writer.crc == old(w.writer.crc) && w.writer.writeOffset == old(w.writer.writeOffset)
